@@ -15,7 +15,7 @@ import subprocess
 import sys
 
 REPO = "/repo"
-EV = "/tmp/ev"
+EV = os.environ.get("EV_DIR", "/tmp/ev")
 ALL = ["C%02d" % i for i in range(1, 21)]
 
 
@@ -90,8 +90,8 @@ def main():
             result["suite_ok"] = suite_ok
         finally:
             subprocess.run(["git", "-C", REPO, "worktree", "remove", "--force", wt], stdout=subprocess.DEVNULL, stderr=subprocess.DEVNULL)
-    os.makedirs(EV + "/results", exist_ok=True)
-    cpath = os.path.join(EV, "results", name + ".json")
+    os.makedirs("/tmp/ev/results", exist_ok=True)
+    cpath = os.path.join("/tmp/ev/results", name + ".json")
     if confirm:
         json.dump(result, open(cpath, "w"))
     elif os.path.exists(cpath):
